@@ -269,12 +269,19 @@ def _rigged_plan(s, pol, rng):
     avail = {repr(c) for c in s.get_dealable_cards()}
     ranks = [r for r in RANKS if any(r + x in avail for x in 'cdhs')]
     kind = rng.choice(['sf', 'sf', 'quads', 'flush', 'straight', 'full',
-                       'wheel', 'trips'])
+                       'wheel', 'trips', 'royal', 'quadsA'])
     suit = rng.choice('cdhs')
     j = rng.randrange(max(1, len(ranks) - 4))
     run = ranks[j:j + 5]
     others = [x for x in 'cdhs' if x != suit]
-    if kind == 'sf':
+    if kind == 'royal':
+        # the board is the nuts: every live hand plays it
+        board = [r + suit for r in ranks[-5:]]
+    elif kind == 'quadsA':
+        a = ranks[-1]
+        b = ranks[-2]
+        board = [b + x for x in 'cdhs'] + [a + suit]
+    elif kind == 'sf':
         board = [r + suit for r in run]
     elif kind == 'straight':
         board = [r + rng.choice('cdhs') for r in run]
